@@ -138,11 +138,140 @@ def edge_conditions(prov, fn, edge):
             pol = t["targets"][idx][0] != 0
         out.append(("bool", norm_cond(o, pol)))
         return out
-    # integer switch
+    # integer switch: `match x { K => .. }` establishes the same fact as `if x == K`
     if idx == "o":
         out.append(("int_not_in", deep_peel(o), tuple(v for v, b, n in t["targets"])))
+        if len(t["targets"]) == 1:
+            out.append(("bool", ("eq", _sym(deep_peel(o), ("const", "int", t["targets"][0][0])), False)))
     else:
         out.append(("int_eq", deep_peel(o), t["targets"][idx][0]))
+        out.append(("bool", ("eq", _sym(deep_peel(o), ("const", "int", t["targets"][idx][0])), True)))
+    return out
+
+
+def enclosing_loops(prov, fn, bid):
+    """loops whose body contains block `bid`: [(block of the next() call, origin of the iterator as written)]"""
+    cfg = cfg_of(fn)
+    out = []
+    for nb, t in fn.calls():
+        if t["callee"]["key"] not in ("std::iter::Iterator::next", "std::iter::DoubleEndedIterator::next_back"):
+            continue
+        if nb != bid and not (cfg.dominates(nb, bid) and nb in cfg.reachable_from(bid)):
+            continue
+        out.append((nb, prov.call_args(fn, t, nb)[0]))
+    return out
+
+
+def filter_conditions(prov, facts, src):
+    """conditions every element yielded by iterator `src` satisfies because of `.filter(p)` adapters in its chain:
+    [(None, ("bool", norm_cond))] in the format of dominating_conditions"""
+    from .prov import ELEM_PRESERVING
+    out = []
+    o = peel(src)
+    while o[0] == "call" and o[1] in ELEM_PRESERVING and o[2]:
+        if o[1] == "std::iter::Iterator::filter" and len(o[2]) > 1:
+            c = peel(o[2][1])
+            g = facts.fn(c[1]) if c[0] == "closure" else None
+            if g is not None:
+                out.append((None, ("bool", norm_cond(prov.ret(g), True))))
+            else:
+                out.append((None, ("bool", ("opaque", (deep_peel(c),), True))))
+        o = peel(o[2][0])
+    return out
+
+
+def conditions_at(prov, facts, fn, bid):
+    """everything known to hold when block `bid` runs: dominating branch conditions plus the predicates of the
+    `.filter(..)` adapters of the loops it sits in (`for x in I.filter(p) { S }` == `for x in I { if p(x) { S } }`)"""
+    out = list(dominating_conditions(prov, fn, bid))
+    for nb, src in enclosing_loops(prov, fn, bid):
+        out.extend(filter_conditions(prov, facts, src))
+    return out
+
+
+def error_fate(prov, fn, cb):
+    """what happens to the error of the Result-returning call that terminates block `cb` of `fn`.
+    Returns a dict: edges (the Err/Break edges of the switches on this call's result), continues (an error edge can
+    reach a loop's next() again), ok_reachable (an error edge can reach an assignment of Ok(..) to the return place),
+    returned_directly (the call's Result is itself the function's return value)."""
+    cfg = cfg_of(fn)
+    t = fn.blocks[cb]["term"]
+    edges = []
+    for sb in fn.order:
+        tt = fn.blocks[sb]["term"]
+        if tt["k"] != "switch" or "discr_of" not in tt:
+            continue
+        so = peel(prov.place(fn, tt["discr_of"], (sb, "t")))
+        if so[0] == "call" and so[4] == (fn.key, cb):
+            for e, v, n, tb in cfg.switch_edges(sb):
+                if n in ("Break", "Err"):
+                    edges.append(e)
+    nxt = [b for b, c in fn.calls() if c["callee"]["key"] in ("std::iter::Iterator::next", "std::iter::DoubleEndedIterator::next_back")]
+    continues = False
+    ok_reachable = False
+    for e in edges:
+        reach = cfg.reachable_from(e)
+        if any(b in reach for b in nxt):
+            continues = True
+        for b2, i2, st in fn.stmts():
+            if b2 in reach and st["k"] == "assign" and st["dst"]["l"] == 0 and not st["dst"]["p"]:
+                o = peel(prov.rvalue(fn, st["rv"], (b2, i2)))
+                if not (o[0] == "call" and o[1].endswith("FromResidual::from_residual")) and not (o[0] == "agg" and o[1].endswith("Result::Err")):
+                    ok_reachable = True
+    direct = False
+    if t["k"] == "call":
+        if t["dst"]["l"] == 0 and not t["dst"]["p"]:
+            direct = True
+        else:
+            for o in alts(peel(prov.ret(fn))):
+                o = peel(o)
+                if o[0] == "call" and o[4] == (fn.key, cb):
+                    direct = True
+    return {"edges": edges, "continues": continues, "ok_reachable": ok_reachable, "returned_directly": direct}
+
+
+def error_propagates(prov, fn, cb):
+    """the error of the call ending block cb always leaves `fn` as an error: every Err/Break edge leads only to error
+    returns (never back into a loop, never to an Ok return), or the Result is returned as it is"""
+    ef = error_fate(prov, fn, cb)
+    if ef["edges"]:
+        return not ef["continues"] and not ef["ok_reachable"]
+    return ef["returned_directly"]
+
+
+def guards(prov, fn):
+    """every two-way decision of `fn` in one normal form, whatever its syntax (`if a == b`, `match a { K => .. , _ => .. }`,
+    `if !p(x)`): [(block, pred, args, edge on which pred(args) holds, edge on which it does not)]
+    Enum-discriminant switches are not listed (see edge_conditions)."""
+    cfg = cfg_of(fn)
+    out = []
+    for bid in fn.order:
+        t = fn.blocks[bid]["term"]
+        if t["k"] != "switch" or "discr_of" in t:
+            continue
+        edges = cfg.switch_edges(bid)
+        o = prov.operand(fn, t["discr"], (bid, "t"))
+        if t.get("discr_ty") == "bool":
+            pred, args, pol = norm_cond(o, True)
+            if pred == "const":
+                continue
+            te = fe = None
+            for e, v, n, tb in edges:
+                val = True if v is None else (v != 0)
+                if val == pol:
+                    te = e
+                else:
+                    fe = e
+            out.append((bid, pred, args, te, fe))
+        elif len(t["targets"]) == 1:
+            v0 = t["targets"][0][0]
+            te = fe = None
+            for e, v, n, tb in edges:
+                if v is None:
+                    fe = e
+                else:
+                    te = e
+            out.append((bid, "eq", _sym(deep_peel(o), ("const", "int", v0)), te, fe))
     return out
 
 
